@@ -11,7 +11,8 @@ harn = set()
 for f in glob.glob(V + "/contracts/kani/*.rs"):
     harn |= set(re.findall(r"@harness id=(\w+)", open(f).read()))
 out = open("/tmp/seed-regression.txt", "w")
-pref = sys.argv[1:]
+verus_only = "--verus-only" in sys.argv
+pref = [a for a in sys.argv[1:] if not a.startswith("--")]
 for d in sorted(glob.glob(V + "/seeded/*")):
     n = os.path.basename(d)
     if pref and not any(n.startswith(p) for p in pref):
@@ -22,6 +23,8 @@ for d in sorted(glob.glob(V + "/seeded/*")):
     expect = "obsolete" if "OBSOLETE" in n else ("inconclusive" if txt.lower().startswith("inconclusive as written") or ("INCONCLUSIVE (exit 2)" in txt and txt.startswith("MISSED at first")) else "caught")
     us = sorted(x for x in units if re.search(r"\b" + x + r"\b", txt))
     hs = sorted(x for x in harn if re.search(r"\b" + x + r"\b", txt))
+    if verus_only and (hs or not us):
+        continue
     r = "/tmp/mrepo-reg-" + n[:40]
     shutil.rmtree(r, ignore_errors=True); os.makedirs(r)
     subprocess.run("cd /repo && git archive HEAD | tar -x -C " + r, shell=True, check=True)
